@@ -7,6 +7,6 @@ func init() {
 		Rule: "PRNG-generated histories driving the REAL Voter + VoteDB + VotesWrapper + BLS over one persistent database: context changes as the Server produces them (step/index/round progression, re-announced contexts, certificate rounds), votes of three other (possibly Byzantine) validators for three candidate blocks so that quorums for different blocks form, proposal availability changing between calls, per-step sortition outcomes independent per (round,index,step). Crash/restart (<=3 per history) at event boundaries and, through the vote hook, right after a vote record was persisted but before it is posted, and right after it was posted; restart = new Voter on the same database with the context regressing to index 1 as StartNewRound does. Every vote that reaches the post point is entered in the ledger. distinct_nontrivial = distinct (restarts, cert round?, vote kinds emitted, vote count bucket) among histories with at least one restart and one vote.",
 		Explanation: "held = in no history did the ledger hold two different block hashes for one vote kind in one (round,index) (three for next-index)",
 		Assumptions: []string{"crash model: process kill; every completed DB write survives", "a vote that was persisted but not yet posted when the process died is not counted as emitted", "sortition callbacks are supplied by the harness (as the package's own tests do)"},
-		Require:     map[string]int64{"votes_emitted": 2000, "restarts": 800, "cert_round_histories": 80, "emitted_prevote": 500, "emitted_precommit": 100, "emitted_next": 200, "emitted_certificate": 20},
+		Require:     map[string]int64{"crashes_before_a_database_write": 30, "votes_emitted": 2000, "restarts": 800, "cert_round_histories": 80, "emitted_prevote": 500, "emitted_precommit": 100, "emitted_next": 200, "emitted_certificate": 20},
 	}
 }
